@@ -83,9 +83,37 @@ def repo_head():
 # 'debug-logging': the root logger (hence every logger of the library) is
 # enabled down to DEBUG, as after logging.basicConfig(level=logging.DEBUG) in
 # an application: code behind `logger.isEnabledFor(DEBUG)` runs.
-VARIANTS = [('optimised', {'PYTHONOPTIMIZE': '1'}),
-            ('warnings-as-errors', {'VMON_WARNINGS': 'error'}),
-            ('debug-logging', {'VMON_LOGGING': 'debug'})]
+VARIANTS = [('optimised', [{'PYTHONOPTIMIZE': '1'}, {'PYTHONOPTIMIZE': '2'}]),
+            ('warnings-as-errors', [{'VMON_WARNINGS': 'error'}]),
+            ('debug-logging', [{'VMON_LOGGING': 'debug'}])]
+# ('optimised' alternates -O and -OO: the second also strips docstrings.)
+# Every variant shard additionally runs under its own string-hash seed (the
+# ordinary shards all run under PYTHONHASHSEED=0 so that cases are
+# reproducible by key): nothing may depend on set / dict-of-str order.
+VARIANT_KEYS = ('PYTHONOPTIMIZE', 'VMON_WARNINGS', 'VMON_LOGGING',
+                'RDK_USE_LEGACY_STEREO_PERCEPTION')
+# A check may add variants of its own (CONFIG['extra_variants']) where a
+# third-party switch is in the property's way and the unchanged library
+# supports it.  C03 / C04: RDKit's new stereo perception
+# (RDK_USE_LEGACY_STEREO_PERCEPTION=0), under which double-bond stereo is
+# labelled CIS / TRANS instead of Z / E -- the relational oracles of those
+# two checks (one molecule, several spellings) do not care which; the
+# reference-based checks are not run there (the library itself does not
+# claim its cis corrections under that switch).
+
+
+def all_variants(conf):
+    return list(VARIANTS) + [tuple(v) for v in conf.get('extra_variants', [])]
+
+
+def variant_env(name, j=0, seed=0, shard=0, variants=None):
+    for vi, (n, envs) in enumerate(variants or VARIANTS):
+        if n == name:
+            env = dict(envs[j % len(envs)])
+            env['PYTHONHASHSEED'] = str(1 + (seed * 31 + shard * 7 + vi)
+                                        % 4000000000)
+            return env
+    return {}
 
 
 def technique_of(mod):
@@ -93,10 +121,12 @@ def technique_of(mod):
     every evidence file."""
     t = getattr(mod, 'TECHNIQUE', 'runtime monitoring')
     conf = getattr(mod, 'CONFIG', {})
-    names = [n for n, _ in VARIANTS if n not in conf.get('no_variants', ())]
+    names = [n for n, _ in all_variants(conf)
+             if n not in conf.get('no_variants', ())]
     if names:
         t += ('; a rotating slice of the workload is repeated in a process '
-              'configured as: %s (same oracles)' % ', '.join(names))
+              'configured as: %s (optimised = -O and -OO; each under its '
+              'own string-hash seed; same oracles)' % ', '.join(names))
     if hasattr(mod, 'check_threads'):
         t += ('; schedule stress on part of the shards: the outcome of each '
               'call made from several threads at once must equal the '
@@ -104,23 +134,17 @@ def technique_of(mod):
     return t
 
 
-def variant_env(name):
-    for n, env in VARIANTS:
-        if n == name:
-            return env
-    return {}
-
-
 def run_one_shard(prop, tier, seed, shard, nshards, timeout, outdir,
-                  variant=None):
+                  variant=None, vj=0, variants=None):
     out = os.path.join(outdir, 'shard%03d%s.json' % (shard, variant or ''))
     cmd = [sys.executable, '-X', 'faulthandler', '-W', 'ignore', '-m',
            'vmon.shard', prop, tier, str(seed), str(shard), str(nshards), out]
     env = dict(os.environ)
-    env.pop('PYTHONOPTIMIZE', None)
-    env.pop('VMON_WARNINGS', None)
-    env.pop('VMON_LOGGING', None)
-    env.update(variant_env(variant))
+    for k in VARIANT_KEYS:
+        env.pop(k, None)
+    venv = variant_env(variant, vj, seed, shard, variants) if variant \
+        else {}
+    env.update(venv)
     t0 = time.time()
     try:
         p = subprocess.run(cmd, cwd=ROOT, capture_output=True, text=True,
@@ -138,9 +162,14 @@ def run_one_shard(prop, tier, seed, shard, nshards, timeout, outdir,
                 res = json.load(f)
         except Exception:
             res = None
+    if res:
+        for v in res.get('violations', []):
+            v['toured'] = bool(res.get('counters', {}).get(
+                'shards_started_after_a_tour_of_the_package'))
     if res and variant:
         for v in res.get('violations', []):
             v['variant'] = variant
+            v['variant_env'] = venv
     return {'shard': shard, 'rc': rc, 'stderr': err, 'result': res,
             'wall': time.time() - t0, 'variant': variant}
 
@@ -210,7 +239,7 @@ def main(argv=None):
         env = dict(os.environ)
         try:
             with open(args.replay) as f:
-                env.update(variant_env(json.load(f).get('variant')))
+                env.update(json.load(f).get('variant_env') or {})
         except Exception:
             pass
         return subprocess.run(cmd, cwd=ROOT, env=env).returncode
@@ -232,7 +261,8 @@ def main(argv=None):
             nvar = conf.get('variant_shards', {}).get(
                 args.tier, 2 if args.tier == 'quick' else 4)
             variant_plan = {}
-            for vi, (vname, _) in enumerate(VARIANTS):
+            variants = all_variants(conf)
+            for vi, (vname, _) in enumerate(variants):
                 if vname in conf.get('no_variants', ()):
                     continue
                 idx = sorted(set((seed * 5 + vi * 3 + 1 + j * (
@@ -240,8 +270,9 @@ def main(argv=None):
                     for j in range(min(nvar, nshards))))
                 variant_plan[vname] = idx
                 futs += [ex.submit(run_one_shard, prop, args.tier, seed, i,
-                                   nshards, timeout, outdir, vname)
-                         for i in idx]
+                                   nshards, timeout, outdir, vname, j,
+                                   variants)
+                         for j, i in enumerate(idx)]
             results = [f.result() for f in futs]
     finally:
         if not args.keep:
@@ -322,6 +353,8 @@ def main(argv=None):
                        'sig': v['sig'], 'case': v['case'],
                        'detail': v['detail'],
                        'variant': v.get('variant'),
+                       'variant_env': v.get('variant_env'),
+                       'toured': v.get('toured', False),
                        'occurrences': m['sig_counts'].get(v['sig'], 1)},
                       f, indent=1, default=repr)
         lines.append('VIOLATION property=%s replay=%s' % (prop, path))
